@@ -166,6 +166,18 @@ func c12Subsets(mask, start uint64, f func(s uint64)) {
 	}
 }
 
+// c12Steps: the carry-rippler from start, n steps (n < 0: the whole cycle).
+func c12Steps(mask, start uint64, n int64, f func(s uint64)) {
+	if n < 0 {
+		c12Subsets(mask, start, f)
+		return
+	}
+	for s := start & mask; n > 0; n-- {
+		f(s)
+		s = (s - mask) & mask
+	}
+}
+
 func c12Numbering(c *Ctx, p *Prog) bool {
 	const rule = "C12.R3"
 	want := map[string]int64{"chess.A1": 0, "chess.H1": 7, "chess.A8": 56, "chess.H8": 63, "chess.Squares": 64}
@@ -311,6 +323,9 @@ func c12RowCell(addr c12V) (t *ssa.Global, i ssa.Value, j c12V, ok bool) {
 		return
 	}
 	o := c12Res(c12V{in.X, addr.env}, false)
+	if sl, isSl := o.v.(*ssa.Slice); isSl && sl.Low == nil {
+		o = c12Res(c12V{sl.X, o.env}, false) // row[:] (or row[:n]) aliases the row from its first cell
+	}
 	out, ok := o.v.(*ssa.IndexAddr)
 	if !ok {
 		return nil, nil, j, false
@@ -592,17 +607,26 @@ func c12PtrUse(v ssa.Value, seen map[ssa.Value]bool, depth int) (writes []ssa.In
 	return
 }
 
+// c12WSite is a store/escape site of a table; Via is the call that handed the
+// table's address to the helper containing the store (nil for a direct store).
+type c12WSite struct {
+	site
+	Via ssa.CallInstruction
+}
+
 // c12CollectWriters: one EFFECT pass over all chess-3 functions; for every
 // package-level variable the sites that store to it or let its address escape
 // (What == "escape"). Same data as p.globalWriters, computed once — except
 // that an address passed to a chess-3 helper is followed into the helper:
 // only stores through it count as writes, a read-only helper is not a writer.
-func c12CollectWriters(p *Prog) map[string][]site {
-	out := map[string][]site{}
+func c12CollectWriters(p *Prog) map[string][]c12WSite {
+	out := map[string][]c12WSite{}
 	for _, fn := range p.OwnFuncs() {
 		e := directEffects(fn)
 		for g, ss := range e.GlobalWrites {
-			out[g] = append(out[g], ss...)
+			for _, s := range ss {
+				out[g] = append(out[g], c12WSite{site: s})
+			}
 		}
 		for g, ss := range e.Escapes {
 			for _, s := range ss {
@@ -624,20 +648,20 @@ func c12CollectWriters(p *Prog) map[string][]site {
 					}
 					if found && !unknown {
 						for _, w := range writes {
-							out[g] = append(out[g], site{Fn: w.Parent(), Pos: w.Pos(), In: w, What: "store through pointer"})
+							out[g] = append(out[g], c12WSite{site{Fn: w.Parent(), Pos: w.Pos(), In: w, What: "store through pointer"}, ci})
 						}
 						continue
 					}
 				}
 				s.What = "escape"
-				out[g] = append(out[g], s)
+				out[g] = append(out[g], c12WSite{site: s})
 			}
 		}
 	}
 	return out
 }
 
-func c12R1(c *Ctx, p *Prog, w map[string][]site, seen []*ssa.Global) {
+func c12R1(c *Ctx, p *Prog, w map[string][]c12WSite, seen []*ssa.Global) {
 	const rule = "C12.R1"
 	names := map[string]bool{}
 	for _, g := range []string{"kingMoves", "knightMoves", "bishopMasks", "rookMasks", "bishopShifts", "rookShifts", "bishopMagics", "rookMagics", "bishopAttacks", "rookAttacks", "InBetween"} {
@@ -794,7 +818,146 @@ func c12R3(c *Ctx, p *Prog, l *c12Leaper) int {
 
 // ---------------------------------------------------------------- R4
 
-func c12R4(c *Ctx, p *Prog, w map[string][]site, r *c12Reader) int {
+// c12LiveSuccs: the successors of b, without the edge a constant condition
+// never takes (range-over-int emits the pre-test 0 < N unfolded).
+func c12LiveSuccs(b *ssa.BasicBlock) []*ssa.BasicBlock {
+	if len(b.Instrs) == 0 || len(b.Succs) != 2 {
+		return b.Succs
+	}
+	iff, ok := b.Instrs[len(b.Instrs)-1].(*ssa.If)
+	if !ok {
+		return b.Succs
+	}
+	cmp, ok := iff.Cond.(*ssa.BinOp)
+	if !ok {
+		return b.Succs
+	}
+	_, xConst := cmp.X.(*ssa.Const)
+	_, yConst := cmp.Y.(*ssa.Const)
+	x, okx := constOf(cmp.X)
+	y, oky := constOf(cmp.Y)
+	if !xConst || !yConst || !okx || !oky {
+		return b.Succs
+	}
+	var t bool
+	switch cmp.Op {
+	case token.LSS:
+		t = x < y
+	case token.LEQ:
+		t = x <= y
+	case token.GTR:
+		t = x > y
+	case token.GEQ:
+		t = x >= y
+	case token.EQL:
+		t = x == y
+	case token.NEQ:
+		t = x != y
+	default:
+		return b.Succs
+	}
+	if t {
+		return b.Succs[:1]
+	}
+	return b.Succs[1:]
+}
+
+// c12OnEveryPath: every (live) control-flow path from from to to passes through b.
+func c12OnEveryPath(from, b, to *ssa.BasicBlock) bool {
+	if b == from || b == to {
+		return true
+	}
+	seen := map[*ssa.BasicBlock]bool{b: true, from: true}
+	stack := []*ssa.BasicBlock{from}
+	for len(stack) > 0 {
+		cur := stack[len(stack)-1]
+		stack = stack[:len(stack)-1]
+		for _, n := range c12LiveSuccs(cur) {
+			if n == to {
+				return false
+			}
+			if !seen[n] {
+				seen[n] = true
+				stack = append(stack, n)
+			}
+		}
+	}
+	return true
+}
+
+// c12SqLoop recognises row as the counter of a loop sq = 0; sq < N; sq++.
+func c12SqLoop(row ssa.Value) (sq *ssa.Phi, latch *ssa.BasicBlock, bound int64) {
+	sq, latch, start, bound, _ := c12CountLoop(row)
+	if sq == nil || start != 0 {
+		return nil, nil, -1
+	}
+	return sq, latch, bound
+}
+
+// c12CountLoop recognises v as the counter of a loop i = K0; i < N; i++ (range N
+// or classic for; <=, != and swapped operands accepted): the phi, the block
+// that jumps back to it, K0, N (-1 when no loop test is found) and whether the
+// test is made on the counter itself (loop header) rather than on i+1 (latch).
+func c12CountLoop(v0 ssa.Value) (sq *ssa.Phi, latch *ssa.BasicBlock, start, bound int64, headerTest bool) {
+	bound = -1
+	sq, ok := v0.(*ssa.Phi)
+	if !ok || len(sq.Edges) != 2 || len(sq.Block().Preds) != 2 {
+		return nil, nil, 0, -1, false
+	}
+	for i, e := range sq.Edges {
+		inc, ok := e.(*ssa.BinOp)
+		k0, isC := constOf(sq.Edges[1-i])
+		if !ok || inc.Op != token.ADD || inc.X != ssa.Value(sq) || !isC || inc.Referrers() == nil || sq.Referrers() == nil {
+			continue
+		}
+		start = k0
+		if k1, ok := constOf(inc.Y); !ok || k1 != 1 {
+			continue
+		}
+		latch = sq.Block().Preds[i]
+		for _, v := range []ssa.Value{sq, inc} {
+			for _, ref := range *v.Referrers() {
+				cmp, ok := ref.(*ssa.BinOp)
+				if !ok || cmp.Referrers() == nil {
+					continue
+				}
+				// only the loop test: an If in the loop header, or one that jumps back to it
+				loopTest := false
+				for _, r2 := range *cmp.Referrers() {
+					if iff, ok := r2.(*ssa.If); ok {
+						loopTest = loopTest || iff.Block() == sq.Block()
+						for _, succ := range iff.Block().Succs {
+							loopTest = loopTest || succ == sq.Block()
+						}
+					}
+				}
+				if !loopTest {
+					continue
+				}
+				// v < K, v != K, K > v  → K ;  v <= K, K >= v → K+1
+				kx, xc := constOf(cmp.X)
+				ky, yc := constOf(cmp.Y)
+				switch {
+				case cmp.X == v && yc && (cmp.Op == token.LSS || cmp.Op == token.NEQ):
+					bound = ky
+				case cmp.X == v && yc && cmp.Op == token.LEQ:
+					bound = ky + 1
+				case cmp.Y == v && xc && (cmp.Op == token.GTR || cmp.Op == token.NEQ):
+					bound = kx
+				case cmp.Y == v && xc && cmp.Op == token.GEQ:
+					bound = kx + 1
+				default:
+					continue
+				}
+				headerTest = v == ssa.Value(sq)
+			}
+		}
+		return sq, latch, start, bound, headerTest
+	}
+	return nil, nil, 0, -1, false
+}
+
+func c12R4(c *Ctx, p *Prog, w map[string][]c12WSite, r *c12Reader) int {
 	const rule = "C12.R4"
 	tname := globalName(r.table)
 	sites := w[tname]
@@ -807,7 +970,8 @@ func c12R4(c *Ctx, p *Prog, w map[string][]site, r *c12Reader) int {
 		c.Undec(rule, shape, p.globalPos(tname), "%s is stored (or its address escapes) at %d sites %v; exactly one fill store is understood", tname, len(sites), where)
 		return 0
 	}
-	fn := sites[0].Fn
+	fn := sites[0].Fn // the function containing the store
+	outer := fn       // the function that owns the square loop
 	st, _ := sites[0].In.(*ssa.Store)
 	undec := func(why string, a ...any) int {
 		c.Undec(rule, shape, sites[0].Pos, "fill of %s in %s: %s", tname, fnName(fn), fmt.Sprintf(why, a...))
@@ -816,7 +980,19 @@ func c12R4(c *Ctx, p *Prog, w map[string][]site, r *c12Reader) int {
 	if st == nil {
 		return undec("the write is not a plain store")
 	}
-	_, row, idx, ok := c12RowCell(c12Top(st.Addr))
+	// the fill loop may live in a helper that receives the row (and mask, magic,
+	// shift, ray walker) as arguments: analyse the helper in the context of that call
+	var env *c12Env
+	via := sites[0].Via
+	if via != nil {
+		if via.Common().StaticCallee() != fn || len(via.Common().Args) != len(fn.Params) {
+			return undec("the store is reached through more than one helper level from %s", fnName(via.Parent()))
+		}
+		env = &c12Env{fn: fn, args: via.Common().Args}
+		outer = via.Parent()
+	}
+	in := func(v ssa.Value) c12V { return c12V{v, env} }
+	_, row, idx, ok := c12RowCell(in(st.Addr))
 	if !ok {
 		return undec("the store does not address %s[sq][index]", r.table.Name())
 	}
@@ -842,7 +1018,7 @@ func c12R4(c *Ctx, p *Prog, w map[string][]site, r *c12Reader) int {
 		return false
 	}
 	nextOf := func(v ssa.Value) bool { // v == (occ - mask) & mask, possibly computed by a helper
-		_, aX, aY, ok := c12Bin(c12Top(v), token.AND)
+		_, aX, aY, ok := c12Bin(in(v), token.AND)
 		if !ok {
 			return false
 		}
@@ -866,10 +1042,10 @@ func c12R4(c *Ctx, p *Prog, w map[string][]site, r *c12Reader) int {
 	}
 	next, start := occ.Edges[ni], occ.Edges[1-ni]
 	isStart := func(v ssa.Value) (full, ok bool) {
-		if isMask(c12Top(v)) {
+		if isMask(in(v)) {
 			return true, true
 		}
-		if k, isC := constOf(c12Res(c12Top(v), false).v); isC && k == 0 {
+		if k, isC := constOf(c12Res(in(v), false).v); isC && k == 0 {
 			return false, true
 		}
 		return false, false
@@ -907,32 +1083,75 @@ func c12R4(c *Ctx, p *Prog, w map[string][]site, r *c12Reader) int {
 			}
 		}
 	}
-	if exit == nil {
-		return undec("no loop exit of the form 'next occupancy == starting occupancy' found")
+	iters := int64(-1) // -1: the whole cycle of subsets; otherwise a constant number of steps
+	exitBlk := (*ssa.BasicBlock)(nil)
+	if exit != nil {
+		exitBlk = exit.Block()
+	} else {
+		// counted enumeration: for i := K0; i < N; i++ { store; occ = next }
+		for _, instr := range occ.Block().Instrs {
+			cnt, isPhi := instr.(*ssa.Phi)
+			if !isPhi {
+				break
+			}
+			if cp, cl, k0, n, hdr := c12CountLoop(cnt); cp != nil && cnt != occ && n >= 0 && cl == occ.Block().Preds[ni] {
+				body := st.Block() != occ.Block() // header-tested: the store must be in the body, not before the test
+				if hdr && !body {
+					continue
+				}
+				iters, exitBlk = max(n-k0, 0), cl
+			}
+		}
+		if exitBlk == nil {
+			return undec("neither a loop exit 'next occupancy == starting occupancy' nor a constant iteration count found")
+		}
 	}
-	if !(st.Block() == occ.Block() || occ.Block().Dominates(st.Block())) || !(st.Block() == exit.Block() || st.Block().Dominates(exit.Block())) {
+	if !(st.Block() == occ.Block() || occ.Block().Dominates(st.Block())) || !(st.Block() == exitBlk || st.Block().Dominates(exitBlk)) {
 		return undec("the store is not executed on every iteration of the enumeration")
 	}
-	c.Ok(rule, shape, st.Pos(), "%s: single store %s[sq][%s] inside the carry-rippler over %s[sq] (start %s, exit when the next subset equals the start)", fnName(fn), r.table.Name(), ix, enumMask.Name(), map[bool]string{true: "full mask", false: "empty set"}[startFull])
+	// the enumeration runs for every square: it (or the call of the helper containing
+	// it) lies on every path round the square loop
+	sqPhi, latch, bound := c12SqLoop(row)
+	inLoop := func(b *ssa.BasicBlock) bool { return sqPhi != nil && c12OnEveryPath(sqPhi.Block(), b, latch) }
+	if via == nil {
+		if sqPhi != nil && !inLoop(occ.Block()) {
+			return undec("the enumeration is not executed for every square of the square loop")
+		}
+	} else {
+		if sqPhi != nil && !inLoop(via.Block()) {
+			return undec("the call of %s is not executed for every square of the square loop", fnName(fn))
+		}
+		if !newPostDom(fn).PostDominates(occ.Block(), fn.Blocks[0]) {
+			return undec("%s does not run the enumeration on every call", fnName(fn))
+		}
+	}
+	c.Ok(rule, shape, st.Pos(), "%s: single store %s[sq][%s] inside the carry-rippler over %s[sq] (start %s, %s)", fnName(fn), r.table.Name(), ix, enumMask.Name(), map[bool]string{true: "full mask", false: "empty set"}[startFull], map[bool]string{true: "exit when the next subset equals the start", false: fmt.Sprintf("exactly %d steps", iters)}[iters < 0])
 
 	// --- stored value
 	vkey := r.spec + "#fill-value"
-	if call, ok := st.Val.(*ssa.Call); !ok || calleeObj(call) == nil {
-		c.Undec(rule, vkey, st.Pos(), "the value stored into %s is not the result of a static call", tname)
-	} else if name := objName(calleeObj(call)); name == r.otherCalc {
-		c.Fail(rule, vkey, call.Pos(), "%s fills %s (read by %s) with %s: the other slider's ray walker", fnName(fn), tname, r.spec, name)
+	call, _ := st.Val.(*ssa.Call)
+	var calcFn *types.Func // the ray walker called: static, or a function-valued parameter bound at the helper's call
+	if call != nil && !call.Call.IsInvoke() {
+		if f, ok := c12Res(in(call.Call.Value), false).v.(*ssa.Function); ok {
+			calcFn = fnObj(f)
+		}
+	}
+	if calcFn == nil {
+		c.Undec(rule, vkey, st.Pos(), "the value stored into %s is not the result of a call whose callee can be resolved", tname)
+	} else if name := objName(calcFn); name == r.otherCalc {
+		c.Fail(rule, vkey, call.Pos(), "%s fills %s (read by %s) with %s: the other slider's ray walker", fnName(outer), tname, r.spec, name)
 	} else if name != r.calc || len(call.Call.Args) != 2 {
-		c.Undec(rule, vkey, call.Pos(), "%s fills %s with %s, expected %s(sq, occ)", fnName(fn), tname, name, r.calc)
+		c.Undec(rule, vkey, call.Pos(), "%s fills %s with %s, expected %s(sq, occ)", fnName(outer), tname, name, r.calc)
 	} else {
-		a1 := c12Res(c12Top(call.Call.Args[1]), false).v
-		if _, aX, aY, ok := c12Bin(c12Top(call.Call.Args[1]), token.AND); ok { // occ & mask == occ
+		a1 := c12Res(in(call.Call.Args[1]), false).v
+		if _, aX, aY, ok := c12Bin(in(call.Call.Args[1]), token.AND); ok { // occ & mask == occ
 			if isMask(aY) {
 				a1 = c12Res(aX, false).v
 			} else if isMask(aX) {
 				a1 = c12Res(aY, false).v
 			}
 		}
-		if c12Res(c12Top(call.Call.Args[0]), true).v == row && a1 == ssa.Value(occ) {
+		if c12Res(in(call.Call.Args[0]), true).v == row && a1 == ssa.Value(occ) {
 			c.Ok(rule, vkey, call.Pos(), "%s stores %s(sq, occ) with the same square as the row and the same occupancy as the index", fnName(fn), name)
 		} else {
 			c.Undec(rule, vkey, call.Pos(), "%s(…) is not called with the row's square and the occupancy used in the index: a cell would receive the attack set of another square/occupancy", name)
@@ -941,62 +1160,15 @@ func c12R4(c *Ctx, p *Prog, w map[string][]site, r *c12Reader) int {
 
 	// --- square loop covers 0..63
 	qkey := r.spec + "#square-loop"
-	bound := int64(-1)
-	if sq, ok := row.(*ssa.Phi); ok && len(sq.Edges) == 2 {
-		for i, e := range sq.Edges {
-			inc, ok := e.(*ssa.BinOp)
-			k0, isC := constOf(sq.Edges[1-i])
-			if !ok || inc.Op != token.ADD || inc.X != ssa.Value(sq) || !isC || k0 != 0 {
-				continue
-			}
-			if k1, ok := constOf(inc.Y); !ok || k1 != 1 {
-				continue
-			}
-			for _, v := range []ssa.Value{sq, inc} {
-				for _, ref := range *v.Referrers() {
-					cmp, ok := ref.(*ssa.BinOp)
-					if !ok || cmp.Referrers() == nil {
-						continue
-					}
-					// only the loop test: an If in the loop header, or one that jumps back to it
-					loopTest := false
-					for _, r2 := range *cmp.Referrers() {
-						if iff, ok := r2.(*ssa.If); ok {
-							loopTest = loopTest || iff.Block() == sq.Block()
-							for _, succ := range iff.Block().Succs {
-								loopTest = loopTest || succ == sq.Block()
-							}
-						}
-					}
-					if !loopTest {
-						continue
-					}
-					// v < K, v != K, K > v  → K ;  v <= K, K >= v → K+1
-					kx, xc := constOf(cmp.X)
-					ky, yc := constOf(cmp.Y)
-					switch {
-					case cmp.X == v && yc && (cmp.Op == token.LSS || cmp.Op == token.NEQ):
-						bound = ky
-					case cmp.X == v && yc && cmp.Op == token.LEQ:
-						bound = ky + 1
-					case cmp.Y == v && xc && (cmp.Op == token.GTR || cmp.Op == token.NEQ):
-						bound = kx
-					case cmp.Y == v && xc && cmp.Op == token.GEQ:
-						bound = kx + 1
-					}
-				}
-			}
-		}
-	}
 	switch {
 	case bound < 0:
-		c.Undec(rule, qkey, fn.Pos(), "%s: the square loop is not of the shape sq = 0; sq < N (or <= N-1, != N); sq++", fnName(fn))
+		c.Undec(rule, qkey, outer.Pos(), "%s: the square loop is not of the shape sq = 0; sq < N (or <= N-1, != N); sq++", fnName(outer))
 	case bound != 64:
-		c.Fail(rule, qkey, fn.Pos(), "%s fills squares 0..%d, the board has squares 0..63", fnName(fn), bound-1)
+		c.Fail(rule, qkey, outer.Pos(), "%s fills squares 0..%d, the board has squares 0..63", fnName(outer), bound-1)
 	default:
-		c.Ok(rule, qkey, fn.Pos(), "%s fills every square 0..63", fnName(fn))
+		c.Ok(rule, qkey, outer.Pos(), "%s fills every square 0..63", fnName(outer))
 	}
-	c.Check(p.initOnly(fn), rule, r.spec+"#fill-runs-at-init", fn.Pos(), "%s is called, and only from package initialisation", fnName(fn))
+	c.Check(p.initOnly(fn) && p.initOnly(outer), rule, r.spec+"#fill-runs-at-init", outer.Pos(), "%s is called, and only from package initialisation", fnName(outer))
 
 	// --- replay the fill on the literals, then the lookup
 	rkey := r.spec + "#roundtrip"
@@ -1020,7 +1192,7 @@ func c12R4(c *Ctx, p *Prog, w map[string][]site, r *c12Reader) int {
 		if startFull {
 			first = wd.mask[sq]
 		}
-		c12Subsets(wd.mask[sq], first, func(s uint64) {
+		c12Steps(wd.mask[sq], first, iters, func(s uint64) {
 			idx, bad := ix.eval(wd.mask[sq], wd.magic[sq], wd.shift[sq], s)
 			if bad != "" || idx >= uint64(r.rowLen) {
 				if msg == "" {
@@ -1411,6 +1583,14 @@ func init() {
 		Mutant{Name: "C12.R4-descending-enumeration-skips-empty", Prop: "C12", File: tab,
 			Old: "\t\t\tbishopAttacks[sq][(occ*magic)>>(64-shift)] = attacks\n\t\t\tocc = (occ - mask) & mask\n\n\t\t\tif occ == mask {", New: "\t\t\tbishopAttacks[sq][(occ*magic)>>(64-shift)] = attacks\n\t\t\tocc = (occ - 1) & mask\n\n\t\t\tif occ == 0 {",
 			Expect: "C12.R4/attacks.BishopMoves#fill-shape"},
+		Mutant{Name: "C12.R4-counted-fill-one-step-short", Prop: "C12", File: tab,
+			Old:    "\t\tshift := bishopShifts[sq]\n\t\tocc := mask\n\n\t\tfor {\n\t\t\tattacks := calcBishopAttacks(sq, occ)\n\t\t\tbishopAttacks[sq][(occ*magic)>>(64-shift)] = attacks\n\t\t\tocc = (occ - mask) & mask\n\n\t\t\tif occ == mask {\n\n\t\t\t\tbreak\n\t\t\t}\n\t\t}\n",
+			New:    "\t\tshift := bishopShifts[sq]\n\t\tocc := BitBoard(0)\n\n\t\tfor i := 1; i < len(bishopAttacks[sq]); i++ {\n\t\t\tbishopAttacks[sq][(occ*magic)>>(64-shift)] = calcBishopAttacks(sq, occ)\n\t\t\tocc = (occ - mask) & mask\n\t\t}\n",
+			Expect: "C12.R4/attacks.BishopMoves#roundtrip"},
+		Mutant{Name: "C12.R4-shared-fill-helper-gets-other-walker", Prop: "C12", File: tab,
+			Old:    "func initBishopMagic() {\n\tfor sq := range Squares {\n\t\tmask := bishopMasks[sq]\n\t\tmagic := bishopMagics[sq]\n\t\tshift := bishopShifts[sq]\n\t\tocc := mask\n\n\t\tfor {\n\t\t\tattacks := calcBishopAttacks(sq, occ)\n\t\t\tbishopAttacks[sq][(occ*magic)>>(64-shift)] = attacks\n\t\t\tocc = (occ - mask) & mask\n\n\t\t\tif occ == mask {\n\n\t\t\t\tbreak\n\t\t\t}\n\t\t}\n\t}\n}\n\nfunc initRookMagic() {\n\tfor sq := range Squares {\n\t\tmask := rookMasks[sq]\n\t\tmagic := rookMagics[sq]\n\t\tshift := rookShifts[sq]\n\t\tocc := mask\n\n\t\tfor {\n\t\t\tattacks := calcRookAttacks(sq, occ)\n\t\t\trookAttacks[sq][(occ*magic)>>(64-shift)] = attacks\n\t\t\tocc = (occ - mask) & mask\n\n\t\t\tif occ == mask {\n\n\t\t\t\tbreak\n\t\t\t}\n\t\t}\n\t}\n}\n\n",
+			New:    "func fillMagic(table []BitBoard, sq Square, mask, magic BitBoard, shift byte, calc func(Square, BitBoard) BitBoard) {\n\tocc := mask\n\n\tfor {\n\t\ttable[(occ*magic)>>(64-shift)] = calc(sq, occ)\n\t\tocc = (occ - mask) & mask\n\n\t\tif occ == mask {\n\t\t\tbreak\n\t\t}\n\t}\n}\n\nfunc initBishopMagic() {\n\tfor sq := range Squares {\n\t\tfillMagic(bishopAttacks[sq][:], sq, bishopMasks[sq], bishopMagics[sq], bishopShifts[sq], calcRookAttacks)\n\t}\n}\n\nfunc initRookMagic() {\n\tfor sq := range Squares {\n\t\tfillMagic(rookAttacks[sq][:], sq, rookMasks[sq], rookMagics[sq], rookShifts[sq], calcRookAttacks)\n\t}\n}\n\n",
+			Expect: "C12.R4/attacks.BishopMoves#fill-value"},
 		// R5
 		Mutant{Name: "C12.R5-attacker-square-not-masked", Prop: "C12", File: brd, Quick: true,
 			Old: "blocked := attacks.InBetween[kingSq][aSq] & ^(king | attacker)", New: "blocked := attacks.InBetween[kingSq][aSq] & ^king",
